@@ -161,6 +161,24 @@ void rewrite_program(Program &p, const std::string &what) {
       }
     return;
   }
+  if (what == "calls_to_havoc") {
+    // every call site becomes a havoc of its left-hand sides (what an
+    // intra-procedural analysis assumes about a call)
+    for (auto &f : p.funcs)
+      for (auto &b : f.blocks) {
+        std::vector<Stmt> ns;
+        for (auto &s : b.stmts) {
+          if (s.op == Op::CALL) {
+            size_t nout = (size_t)s.n.at(0).get_ui();
+            for (size_t i = 0; i < nout && i < s.v.size(); i++)
+              ns.push_back(havoc_of(s.v[i], hid++));
+          } else
+            ns.push_back(s);
+        }
+        b.stmts = ns;
+      }
+    return;
+  }
   if (what == "drop_dead_end_asserts") {
     for (auto &f : p.funcs) {
       if (f.exit.empty())
